@@ -518,7 +518,7 @@ func positionsAssigned(r *core.Run) {
 	nlit := 0
 	core.AllFuncDecls(pk, func(fd *ast.FuncDecl) {
 		file := r.P.Fset.Position(fd.Pos()).Filename
-		if !strings.HasSuffix(file, "parser.go") && !strings.HasSuffix(file, "expressions.go") && !strings.HasSuffix(file, "value.go") {
+		if strings.HasSuffix(file, "_test.go") {
 			return
 		}
 		// SourceNode literals
@@ -557,7 +557,7 @@ func positionsAssigned(r *core.Run) {
 		})
 	})
 	r.Analysed["sourcenode_literals"] = nlit
-	r.Floor("R-POS", 10, "SourceNode literals in the parser")
+	r.Floor("R-POS", 5, "SourceNode literals in the parser (fewer when a token-span helper builds them)")
 }
 
 func litSig(fd *ast.FuncDecl, cl *ast.CompositeLit) string {
